@@ -139,6 +139,10 @@ class Exec:
                     if ast.unparse(n.value) == want:
                         found = n.targets[0].id
                         break
+                if isinstance(n, ast.AnnAssign) and n.value is not None and isinstance(n.target, ast.Name) \
+                        and ast.unparse(n.value) == want:
+                    found = n.target.id
+                    break
             if found is None:
                 raise StaleContract(f"{self.c.key}: no local is assigned from `{text}`")
             self.bindings[name] = found
@@ -445,6 +449,26 @@ class Exec:
 
     def st_AugAssign(self, s, st):
         load = _as_load(s.target)
+        if isinstance(s.op, (ast.BitOr, ast.Sub, ast.BitAnd)):
+            # `x |= y` on a (mutable) set updates the object in place and re-binds the same object
+            outs = []
+            for st1, cur in self.ev(load, st):
+                if isinstance(cur, Val) and isinstance(cur.t, TSet):
+                    for st2, rhs in self.ev(s.value, st1):
+                        if not (isinstance(rhs, Val) and isinstance(rhs.t, (TSet, TSetV)) and rhs.t.e == cur.t.e):
+                            raise Unsupported(f"in-place set operator with {getattr(rhs, 't', rhs)}")
+                        x = heapops.set_arr(st2.heap, cur)
+                        y = heapops.set_arr(st2.heap, rhs) if isinstance(rhs.t, TSet) else rhs.v
+                        arr = z3.SetUnion(x, y) if isinstance(s.op, ast.BitOr) else z3.SetDifference(x, y) \
+                            if isinstance(s.op, ast.Sub) else z3.SetIntersect(x, y)
+                        heapops.set_write(st2.heap, cur, arr)
+                        outs.append(Outcome("normal", st2))
+                else:
+                    outs = None
+                    break
+            if outs is not None:
+                yield from outs
+                return
         binop = ast.BinOp(left=load, op=s.op, right=s.value)
         ast.copy_location(binop, s)
         ast.fix_missing_locations(binop)
@@ -1180,6 +1204,18 @@ class Exec:
                     else:
                         yield from self.binop(op, a, x.v[1], st1, node)
                 return
+        if isinstance(op, (ast.BitOr, ast.Sub, ast.BitAnd)) and isinstance(a.t, (TSet, TSetV)) and isinstance(b.t, (TSet, TSetV)) \
+                and a.t.e == b.t.e:
+            # set algebra: a fresh set object (the in-place forms |=, -=, &= are handled by st_AugAssign)
+            x = heapops.set_arr(st.heap, a) if isinstance(a.t, TSet) else a.v
+            y = heapops.set_arr(st.heap, b) if isinstance(b.t, TSet) else b.v
+            arr = z3.SetUnion(x, y) if isinstance(op, ast.BitOr) else z3.SetDifference(x, y) if isinstance(op, ast.Sub) \
+                else z3.SetIntersect(x, y)
+            r = st.new_ref("set")
+            out = Val(TSet(a.t.e), r)
+            heapops.set_write(st.heap, out, arr)
+            yield st, out
+            return
         if isinstance(op, ast.Add) and isinstance(a.t, TList) and isinstance(b.t, TList) and a.t == b.t:
             r = st.new_ref("list")
             out = Val(a.t, r)
